@@ -251,3 +251,16 @@ Proof using Hnd HA HS HN HF HU Hso Hom Hsh.
   reflexivity.
 Qed.
 End Inverse.
+
+(* the .meta of the original is still in place with the right size: it is kept as it is *)
+Lemma meta_existing_kept me m0 nch fs :
+  mget K_fsize me = Some (MInt fs) -> meta_recon_at (Some me) m0 nch fs = Some me.
+Proof. intros H. unfold meta_recon_at. now rewrite H, Z.eqb_refl. Qed.
+
+(* a stale .meta (other size) or none: the rewrite *)
+Lemma meta_existing_stale me m0 nch fs z :
+  mget K_fsize me = Some (MInt z) -> z <> fs -> meta_recon_at (Some me) m0 nch fs = meta_recon m0 nch fs.
+Proof.
+  intros H Hz. unfold meta_recon_at. rewrite H. destruct (Z.eqb_spec z fs); [contradiction | reflexivity].
+Qed.
+
